@@ -12,6 +12,8 @@ import IrVerif.Lemmas.ScopeExtSerOk
 import IrVerif.Lemmas.ScopeExtDevCert
 import IrVerif.Lemmas.ScopeCert
 import IrVerif.Lemmas.ScopeExtModelTop
+import IrVerif.Lemmas.ScopeSerdeBridgeOK
+import IrVerif.Lemmas.ScopeSerdeBridgeSub7
 namespace IrVerif.Scope
 
 /-! ### the write log only changes tensor names -/
